@@ -197,7 +197,7 @@ theorem emit_range (lo root cur : Nat) (hroot : lo ≤ root) (hcur : lo ≤ cur)
   | .input, s, _, _, _ => by simp only [emit]; exact .op s _ (by simp)
   | .ident sym, s, _, _, _ => by simp only [emit]; exact .pushConst s _ _ (.inr rfl) (fun j hj => by cases hj)
   | .emptyNested, s, _, _, _ => by
-    simp only [emit]; exact .pushConst s _ _ (.inl rfl) (fun j hj => by cases hj; exact hroot)
+    simp only [emit]; exact .pushConst s _ _ (.inl rfl) (fun j hj => by cases hj; exact hcur)
   | .nested id, s, hlo, _, _ => by
     simp only [emit]
     have r1 : RP lo s ((s.pushJump 0).pushConst .put (.expr s.jumps.size)) :=
@@ -236,21 +236,21 @@ theorem emit_range (lo root cur : Nat) (hroot : lo ≤ root) (hcur : lo ≤ cur)
   | .cond onTrue c t, s, hlo, hc, hw => by
     simp only [wfE, Bool.and_eq_true] at hw
     simp only [emit]
-    have h1 := emit_range lo root cur hroot hcur c s hlo hc hw.1.1
+    have h1 := emit_range lo root cur hroot hcur c s hlo hc hw.1
     have j1 := h1.p.jsize
-    exact h1.trans ⟨condTail_range (by omega) hcur hw.1.2, (condTail_pre (by omega)).1⟩
+    exact h1.trans ⟨condTail_range (by omega) hcur hw.2, (condTail_pre (by omega)).1⟩
   | .and l r, s, hlo, hc, hw => by
     simp only [wfE, Bool.and_eq_true] at hw
     simp only [emit]
-    have h1 := emit_range lo root cur hroot hcur l s hlo hc hw.1.1
+    have h1 := emit_range lo root cur hroot hcur l s hlo hc hw.1
     have j1 := h1.p.jsize
-    exact h1.trans ⟨logicalTail_range (.inl rfl) (by omega) hcur hw.1.2, (logicalTail_pre (by omega)).1⟩
+    exact h1.trans ⟨logicalTail_range (.inl rfl) (by omega) hcur hw.2, (logicalTail_pre (by omega)).1⟩
   | .or l r, s, hlo, hc, hw => by
     simp only [wfE, Bool.and_eq_true] at hw
     simp only [emit]
-    have h1 := emit_range lo root cur hroot hcur l s hlo hc hw.1.1
+    have h1 := emit_range lo root cur hroot hcur l s hlo hc hw.1
     have j1 := h1.p.jsize
-    exact h1.trans ⟨logicalTail_range (.inr rfl) (by omega) hcur hw.1.2, (logicalTail_pre (by omega)).1⟩
+    exact h1.trans ⟨logicalTail_range (.inr rfl) (by omega) hcur hw.2, (logicalTail_pre (by omega)).1⟩
   | .seq a b, s, hlo, hc, hw => by
     simp only [wfE, Bool.and_eq_true] at hw
     simp only [emit]
@@ -325,7 +325,7 @@ theorem emitArms_range (lo root cur : Nat) (hroot : lo ≤ root) (hcur : lo ≤ 
   | (b, c, t) :: rest, s, hlo, hc, hw => by
     simp only [wfEArms, Bool.and_eq_true] at hw
     simp only [emitArms]
-    have h1 := emit_range lo root cur hroot hcur c s hlo hc hw.1.1.1
+    have h1 := emit_range lo root cur hroot hcur c s hlo hc hw.1.1
     have j1 := h1.p.jsize
     have hj : ∀ j, jumpOperand (jumpIf b, some (emit root cur c s).jumps.size) = some j → lo ≤ j := by
       intro j hj; cases b <;> simp [jumpIf, jumpOperand] at hj <;> omega
@@ -338,7 +338,7 @@ theorem emitArms_range (lo root cur : Nat) (hroot : lo ≤ root) (hcur : lo ≤ 
     refine ⟨h2.trans h3, fun it hm => ?_⟩
     simp only [List.mem_cons] at hm
     rcases hm with rfl | hm
-    · exact ⟨by simp only; omega, hw.1.1.2⟩
+    · exact ⟨by simp only; omega, hw.1.2⟩
     · exact hit it hm
 end
 
